@@ -329,6 +329,41 @@ func c14Run(c *core.Ctx) {
 		}
 	}
 	rec()
+	if !c.Thorough() {
+		// quick: additionally every depth-3 history over a reduced alphabet
+		// (4 attachment points x 4 predicates)
+		var red []extOp
+		for _, a := range []int{0, 2, 3, 8} {
+			for _, p := range []int{1, 2, 3, 4} {
+				red = append(red, extOp{Attach: a, Pred: p, Aliases: (a + p) % 3})
+			}
+		}
+		c.Info("quick_depth3_reduced_alphabet", fmt.Sprint(len(red)))
+		for _, o1 := range red {
+			for _, o2 := range red {
+				if !c.Next() || c.Expired() {
+					continue
+				}
+				for _, o3 := range red {
+					hist = []extOp{o1, o2, o3}
+					c.R.States++
+					ok, _, _ := c14Check(c, hist, probes, func(acc bool) {
+						c.R.Transitions++
+						c.R.Evals++
+						c.R.Traces++
+						if acc {
+							c.R.Nontrivial++
+						}
+					})
+					if !ok {
+						cs.Ints = []int{opToInt(o1), opToInt(o2), opToInt(o3)}
+						c.Check(cs)
+					}
+				}
+			}
+		}
+		hist = nil
+	}
 	// (4) fresh-process replays
 	nfresh := 24
 	if c.Thorough() {
